@@ -176,4 +176,65 @@ example : W.dockerExecInner false ["-it", "-e", "A=1", "web", "sh", "-c", "ls"] 
 example : W.dockerExecInner false ["--", "ls", "rm", "-rf", "/"] = some ["rm", "-rf", "/"] := by decide +kernel
 example : W.kubectlExecInner ["-it", "pod", "-c", "main", "--", "rm", "x"] = some ["rm", "x"] := by decide +kernel
 
+/-! ### which kubectl command lines are an exec -/
+
+open W Generated.H in
+/-- T0 fact: `exec` has no entry in kubectl's action and subcommand tables, so `classify` reaches the exec branch -/
+theorem exec_not_tabled : "exec" ∉ kubectl_SAFE_ACTIONS ∧ "exec" ∉ kubectl_SUBCOMMAND_ACTIONS := by decide +kernel
+
+open W Generated.H in
+/-- the words before the first operand are flags and flag values only -/
+def KubectlFlags : Bool → List String → Prop
+  | _, [] => True
+  | true, _ :: rest => KubectlFlags false rest
+  | false, t :: rest => sw t "-" = true ∧ KubectlFlags (kubectl_FLAGS_WITH_ARG.contains t) rest
+
+open W Generated.H in
+theorem kubectlOperands_spec (b : Bool) (l : List String) (t : String) (rest : List String)
+    (h : kubectlOperands b l = t :: rest) :
+    ∃ pre, l = pre ++ t :: rest ∧ KubectlFlags b pre ∧ sw t "-" = false ∧ (pre = [] → b = false) := by
+  induction l generalizing b with
+  | nil => cases b <;> simp [kubectlOperands] at h
+  | cons x l ih =>
+    cases b with
+    | true =>
+      simp only [kubectlOperands] at h
+      obtain ⟨pre, hl, hp, ht, _⟩ := ih false h
+      exact ⟨x :: pre, by simp [hl], by simpa [KubectlFlags] using hp, ht, by simp⟩
+    | false =>
+      simp only [kubectlOperands] at h
+      split at h
+      · rename_i hx
+        obtain ⟨pre, hl, hp, ht, _⟩ := ih _ h
+        exact ⟨x :: pre, by simp [hl], ⟨hx, hp⟩, ht, by simp⟩
+      · rename_i hx
+        simp only [List.cons.injEq] at h
+        obtain ⟨rfl, rfl⟩ := h
+        exact ⟨[], rfl, trivial, by simpa using hx, fun _ => rfl⟩
+
+open W Generated.H in
+/-- kubectl delegates only for the action `exec` – the first word that is neither a flag nor the value of a global
+    flag – and then to exactly the words after the first `--` that follows it.  `kubectl --user get exec p -- rm x`
+    (user name `get`) is an exec: `get` is stepped over as the value of `--user`. -/
+theorem kubectl_delegates_exec_only (tokens inner : List String) (h : kubectlDelegates tokens = some inner) :
+    ∃ pre rest, tokens.drop 1 = pre ++ "exec" :: rest ∧ KubectlFlags false pre ∧ kubectlExecInner rest = some inner := by
+  unfold kubectlDelegates at h
+  split at h
+  · rename_i action rest hop
+    split at h
+    · rename_i ha
+      have ha' : action = "exec" := by simpa using ha
+      subst ha'
+      obtain ⟨pre, hl, hp, _, _⟩ := kubectlOperands_spec false _ _ _ hop
+      exact ⟨pre, rest, hl, hp, h⟩
+    · cases h
+  · cases h
+
+open W Generated.H in
+example : kubectlDelegates ["kubectl", "--user", "get", "exec", "p", "--", "rm", "-rf", "/"] = some ["rm", "-rf", "/"] := by decide +kernel
+open W Generated.H in
+example : kubectlDelegates ["kubectl", "get", "exec", "p", "--", "rm"] = none := by decide +kernel
+open W Generated.H in
+example : "--user" ∈ kubectl_FLAGS_WITH_ARG ∧ "--kubeconfig" ∈ kubectl_FLAGS_WITH_ARG ∧ "-s" ∈ kubectl_FLAGS_WITH_ARG := by decide +kernel
+
 end Dippy.C13
